@@ -242,6 +242,12 @@ class Origins:
             nm = call_name(e)
             if nm in self.PASS_CALLS and e.args:
                 return self.origin(e.args[0], _depth + 1)
+            if nm in ("islice", "chain", "tee", "compress", "takewhile", "dropwhile", "filter", "map") and e.args:
+                # itertools / builtins handing on (some of) the elements of their iterable arguments
+                out = set()
+                for a in (e.args[1:] if nm in ("filter", "map", "takewhile", "dropwhile") else e.args[:1] if nm in ("islice", "tee", "compress") else e.args):
+                    out |= self.origin(a, _depth + 1)
+                return out
             if isinstance(e.func, ast.Attribute):
                 # method result keeps the receiver's origin:  g.transform(f), bbox.polygon ...
                 return self.origin(e.func.value, _depth + 1)
